@@ -24,6 +24,8 @@ PROPS = {
              assumptions=["one driver per unit issues create/cancel/join/revive/free sequentially (cancel races with the target's execution, not with its own join); the cancel deadline is checked at ABT_thread_yield and at a suspend that is resumed through a pool, not for direct hand-over resumes"]),
     "C13": P(60000, 1500000, expect_reach=["c13.requests_checked_must_be_honoured", "c13.requests_overlapping_scheduling_point"],
              assumptions=["per unit, requests come either from the unit itself or from one issuer, so accepted requests are totally ordered; a request overlapping a scheduling point may be honoured at that point or the next"]),
+    "C14": P(60000, 1500000, expect_reach=["c14.translation_queries", "c14.units_created"],
+             assumptions=["unit handles are crafted integers that all hash to one bucket of the 256-entry table; translations are queried only for units that cannot move or be freed meanwhile (the caller's own unit, or a suspended ULT)"]),
     "C16": P(60000, 1500000, expect_reach=["c16.remote_sets_while_owner_runs", "c16.destructor_calls"],
              assumptions=["every (unit,key) pair has a single writer (the owner or one remote setter), so the expected value is unique; ABT_KEY_TABLE_SIZE is randomised in {1,...,64}"]),
     "C17": P(60000, 1500000, expect_reach=["c17.lin_decided"],
